@@ -47,6 +47,7 @@
    Node / the fields collection, xml, gob, slog of a Stack, every sink on the
    restored error. *)
 From Errdef Require Import Base.Str Model.Redact Check.C15 Proofs.C15Proofs.
+From Errdef Require Gen.Consts Model.Unmarshal.
 
 (* [same_public true v v']: v and v' are the same Go value except for the payloads of
    Redacted values at positions a sink reaches through methods (the payloads keep their
@@ -192,3 +193,10 @@ Example C15_example :
   restore_fields conv_all [({| k_name := "tok"; k_ty := "errdef.Redacted[string]"; k_idx := 1 |}, VRedacted (VStr "SECRET-1"))] 1
     = [("tok", Unknown (JStr placeholder))].
 Proof. vm_compute. repeat split; try reflexivity. discriminate. Qed.
+
+(* TIE TO THE SOURCE: the placeholder of the model (and the one the unmarshaler model recognises)
+   is the constant redactedStr srcgen reads from redaction.go on every run *)
+Theorem C15_placeholder_is_source :
+  Model.Redact.placeholder = Gen.Consts.redactedStr /\ Model.Unmarshal.redacted_str = Gen.Consts.redactedStr.
+Proof. split; reflexivity. Qed.
+Print Assumptions C15_placeholder_is_source.
